@@ -986,6 +986,10 @@ func (tc *typechecker) binaryOp(expr1 ast.Expression, op ast.OperatorType, expr2
 			typ = boolType
 		} else if !isShift && t1.Untyped() && t1.Type.Kind() < t2.Type.Kind() {
 			typ = t2.Type
+		} else if isShift && t1.Untyped() && reflect.Float32 <= typ.Kind() && typ.Kind() <= reflect.Complex128 {
+			// The result of a constant shift with an untyped left operand
+			// is an integer constant.
+			typ = intType
 		}
 		ti := &typeInfo{Type: typ, Constant: c}
 		if t1.Untyped() || isComparison(op) {
